@@ -79,9 +79,13 @@ def _table():
     if "table" not in _state:
         sys.path.insert(0, os.path.join(C.VERIF, "harness"))
         from translate import g2_persistence
-        tr = g2_persistence.Translator(C.REPO).run()
-        tr.emit()
-        _state["tr"], _state["table"] = tr, tr.table()
+        try:
+            tr = g2_persistence.Translator(C.REPO).run()
+            tr.emit()
+            _state["tr"], _state["table"] = tr, tr.table()
+        except g2_persistence.TranslateError:
+            # broken tie: the spec oracle below still runs (without class table: owners are resolved by class name)
+            _state["table"] = {}
     return _state["table"]
 
 
@@ -157,6 +161,9 @@ def _owner_of_attr(mod, attr):
         n = _table_name(c)
         if n is not None and any(_match(a, attr) or a == attr for a in tab[n]["mut_attrs"] if a != "*"):
             return n
+    for c in type(mod).__mro__:        # no table (translator broke): by class name against the allow-list
+        if (c.__name__, attr) in _allow_list():
+            return c.__name__
     return type(mod).__name__
 
 
@@ -1233,13 +1240,22 @@ def check_savepoint(ctx, fname, seed, ops, mechs=MECHS, driver=None, stale=True,
             if before[p][a] != after.get(p, {}).get(a, "<gone>"):
                 fail(f"original-mutated:{fname}:{a}", f"taking the snapshots changed {p}.{a} of the original")
     # stale cache after load: target has predicted before the load
-    stale_pred = None
-    if stale and "state_dict" in mechs and "state_dict" in restored:
+    stale_pred, stale_tree = None, None
+    pending_init = any(n.endswith("variational_params_initialized") and not bool(t.item())
+                       for n, t in b.top.named_buffers())
+    if pending_init:
+        ctx.count("stale_skipped_lazy_init_pending")   # the next call draws the random initialisation: no fixed reference
+    if stale and not pending_init and "state_dict" in mechs and "state_dict" in restored:
         try:
             f2 = build_fresh(fname, seed, salt=5)
             apply_op(f2, "eval", 1)
             apply_op(f2, "predict", 2)
+            if driver is not None:      # the target as the model sees it: caches populated by its own old state
+                payU = Payloads(100000)
+                stale_tree = (tree_tokens(f2.top, payU), live_caches(f2.top))
             f2.top.load_state_dict(copy.deepcopy(b.top.state_dict()))
+            if driver is not None:
+                stale_tree += (f2.top.state_dict(), live_caches(f2.top))
             with torch.no_grad(), gpytorch.settings.num_likelihood_samples(3), _settings(f2):
                 torch.manual_seed(12345)
                 tmp = {}
@@ -1250,12 +1266,24 @@ def check_savepoint(ctx, fname, seed, ops, mechs=MECHS, driver=None, stale=True,
                  f"the next prediction raised {type(e).__name__}: {str(e)[:200]}")
     # driver lines (before observation changes modes / caches)
     if driver is not None:
-        _driver_lines(driver, fname, seed, ops, b, restored)
+        try:
+            _driver_lines(driver, fname, seed, ops, b, restored, stale_tree)
+        except Exception:
+            ctx.count("driver_lines_skipped")
     # snapshots of attributes (before observation)
     snap_o = _attr_snapshot(b.top)
-    snaps = {m: _attr_snapshot(r.top) for m, r in restored.items()}
+    snaps = {}
+    for m, r in list(restored.items()):
+        try:
+            snaps[m] = _attr_snapshot(r.top)
+            r.top.state_dict()
+        except Exception as e:
+            fail(f"{m}:{type(r.top).__name__}:restored-unusable:inspect", f"{short} restored by {m} after {list(ops)} cannot "
+                 f"even be inspected: {type(e).__name__}: {str(e)[:200]}", mechanism=m)
+            del restored[m]
     training_o = {p: m.training for p, (m, _) in snap_o.items()}
     # observations
+    was_training = b.top.training
     obs_o, err_o = observe(b)
     if err_o is not None:
         if any(t in err_o[1] for t in NUMERICAL):
@@ -1268,6 +1296,7 @@ def check_savepoint(ctx, fname, seed, ops, mechs=MECHS, driver=None, stale=True,
         desc = f"{fname}|{','.join(ops)}|{mech}"
         obs_r, err_r = observe(r)
         bitwise = 0
+        bad = []
         if err_r is not None:
             cls = _blame_class(r.top, None, err_r[2])
             fail(f"{mech}:{cls}:restored-unusable:{err_r[0]}", f"{short} restored by {mech} after {list(ops)}: "
@@ -1280,35 +1309,52 @@ def check_savepoint(ctx, fname, seed, ops, mechs=MECHS, driver=None, stale=True,
             ctx.count("observations")
             ctx.count("observations_bitwise", int(bit))
             if not ok:
-                cands = _unpersisted_candidates(snap_o, snaps[mech]) if mech == "state_dict" else []
+                bad.append((k, err))
+        if bad:
+            remaining = bad
+            if mech == "state_dict":
+                # attribution: numeric plain attributes that differ; transplant the original's values and observe again —
+                # only what the transplant repairs is reported as `not-persisted:<Class>.<attr>`
+                cands = _unpersisted_candidates(snap_o, snaps[mech])
                 if cands:
-                    for c_ in cands[:3]:
-                        fail(f"not-persisted:{c_}", f"{short} restored by state_dict after {list(ops)}: {k} differs from "
-                             f"the original by {err:.3e}; {c_} is a plain attribute (not a parameter/buffer), so the "
-                             f"value of the saved model does not reach the fresh one", mechanism=mech, observable=k, err=err)
-                else:
-                    fail(f"mismatch:{fname}:{mech}:{k}", f"{short} restored by {mech} after {list(ops)}: {k} differs from "
-                         f"the original by {err:.3e}", mechanism=mech, observable=k, err=err)
+                    for _, mo, mr, a in cands:
+                        mr.__dict__[a] = copy.deepcopy(mo.__dict__[a])
+                    r.top.train(was_training)
+                    obs_t, err_t = observe(r)
+                    remaining = [(k, e_) for k, e_ in bad
+                                 if err_t is not None or k not in obs_t or not _close(obs_o[k], obs_t[k])[0]]
+                    if len(remaining) < len(bad):
+                        kmax, emax = max(bad, key=lambda x: x[1] if x[1] == x[1] else float("inf"))
+                        for name in sorted({c_[0] for c_ in cands}):
+                            fail(f"not-persisted:{name}", f"{short} restored by state_dict after {list(ops)}: {kmax} differs "
+                                 f"from the original by {emax:.3e}; {name} is a plain attribute (not a parameter/buffer), so "
+                                 f"the value of the saved model does not reach the fresh one (transplanting it repairs "
+                                 f"{len(bad) - len(remaining)} of {len(bad)} observables)", mechanism=mech, observable=kmax, err=emax)
+            for k, err in remaining:
+                fail(f"mismatch:{fname}:{mech}:{k}", f"{short} restored by {mech} after {list(ops)}: {k} differs from "
+                     f"the original by {err:.3e}", mechanism=mech, observable=k, err=err)
         # structure: aliasing kept, independence of the copy
         if mech != "state_dict":
             al = _aliasing(r.top)
             if al != alias0:
                 d = [x for x in alias0[0] + alias0[1] if x not in al[0] + al[1]] + \
                     [x for x in al[0] + al[1] if x not in alias0[0] + alias0[1]]
-                fail(f"aliasing:{fname}:{mech}", f"{mech} changed the sharing structure of {short}: {d[:3]}", mechanism=mech)
+                grp0 = min(d, key=lambda g_: min(q.count(".") for q in g_)) if d else ()
+                deepest = max(grp0, key=lambda q: q.count("."), default="")
+                fail(f"aliasing:{_short_cls(b.top, deepest) if deepest else fname}:{mech}",
+                     f"{mech} changed the sharing structure of {short}: {d[:3]}", mechanism=mech)
             ids_o = {id(t) for t in list(b.top.parameters()) + list(b.top.buffers())} | {id(m) for m in b.top.modules()}
             shared = [p for p, m in r.top.named_modules(remove_duplicate=False) if id(m) in ids_o] + \
                      [p for p, t in list(r.top.named_parameters(remove_duplicate=False))
                       + list(r.top.named_buffers(remove_duplicate=False)) if id(t) in ids_o]
             if shared:
-                cls = type(dict(r.top.named_modules(remove_duplicate=False)).get(shared[0].rsplit(".", 1)[0] if "." in shared[0] else "", r.top)).__name__
                 fail(f"not-independent:{_short_cls(r.top, shared[0])}:{mech}",
                      f"{mech} of {short}: the copy shares {shared[:3]} with the original", mechanism=mech, shared=shared[:6])
         # attribute diff
         _diff_attrs(fail, ctx, fname, ops, mech, snap_o, snaps[mech], t0)
         ctx.case(desc, nontrivial=nontriv, sample={"family": fname, "ops": list(ops), "mechanism": mech,
                                                     "observables": len(obs_o), "bitwise_equal": bitwise})
-    if stale_pred is not None:
+    if stale_pred is not None and not any(k.startswith(("mismatch:", "not-persisted:", "state_dict:")) for k in fails):
         tmp, live = stale_pred
         for k, a in tmp.items():
             ok, err, _ = _close(obs_o[k], a)
@@ -1321,23 +1367,25 @@ def check_savepoint(ctx, fname, seed, ops, mechs=MECHS, driver=None, stale=True,
 
 
 def _unpersisted_candidates(snap_o, snap_r):
-    """Tensor / number valued plain attributes that differ between the original and the state_dict-restored model."""
+    """[(Class.attr, original module, restored module, attr)]: tensor / number valued plain attributes that differ
+    between the original and the state_dict-restored model.  Aliases of one value inside a module (`eta` is
+    `concentration`) are listed for the transplant but share the name of the alphabetically first one."""
     out = []
+    num = lambda x: (isinstance(x, (int, float)) and not isinstance(x, bool)) or (isinstance(x, tuple) and x and x[0] == "T")  # noqa: E731
     for p, (m, d) in snap_o.items():
-        if p not in snap_r:
+        if p not in snap_r or type(m).__module__.startswith("torch."):
             continue
-        dr = snap_r[p][1]
-        for a, vo in d.items():
-            vr = dr.get(a, "<absent>")
-            if vr == vo or a in MODE_ATTRS:
+        mr, dr = snap_r[p]
+        first = {}
+        for a in sorted(d):
+            vo, vr = d[a], dr.get(a, "<absent>")
+            if vr == vo or a in MODE_ATTRS or not (num(vo) and num(vr)) or a not in m.__dict__:
                 continue
-            num = lambda x: isinstance(x, (int, float)) and not isinstance(x, bool) or (isinstance(x, tuple) and x and x[0] == "T")  # noqa: E731
-            if num(vo) and num(vr):
-                owner = _owner_of_attr(m, a)
-                tag = _allow_list().get((owner, a))
-                if tag is None:
-                    out.append(f"{type(m).__name__}.{a}")
-    return sorted(set(out))
+            if _allow_list().get((_owner_of_attr(m, a), a)) is not None:
+                continue
+            name = first.setdefault((repr(vo), repr(vr)), f"{type(m).__name__}.{a}")
+            out.append((name, m, mr, a))
+    return out
 
 
 def _short_cls(top, path):
@@ -1412,7 +1460,7 @@ def _brief(v):
     return s if len(s) < 80 else s[:77] + "..."
 
 
-def _driver_lines(driver, fname, seed, ops, b, restored):
+def _driver_lines(driver, fname, seed, ops, b, restored, stale_tree=None):
     """Queue the requests for the Lean driver together with what the real objects say."""
     torch, _ = _import()
     pay = Payloads(0)
@@ -1430,10 +1478,14 @@ def _driver_lines(driver, fname, seed, ops, b, restored):
             driver.append(("COPY", fname, ops, f"COPY {mech} " + " ".join(tT),
                            {"keys": list(restored[mech].top.state_dict().keys()), "live": live_caches(restored[mech].top),
                             "mech": mech}))
-    if "state_dict" in restored:
-        # the target as it was before the load is not available any more; rebuild its architecture description from
-        # the loaded object with distinct payloads (the load does not change the architecture) and all caches as
-        # they were in a target that had predicted (populated) — the model must report them cleared
+    if stale_tree is not None and len(stale_tree) == 4:
+        # load into a target that had already predicted: the model must say which caches survive (none)
+        tU, live_before, sdU, live_after = stale_tree
+        driver.append(("RT", fname, ops, "RT g " + " ".join(tT) + " | " + " ".join(tU),
+                       {"keys": list(sdU.keys()), "pay": pay, "sdU": sdU, "live": live_after,
+                        "live_before": live_before}))
+    elif "state_dict" in restored:
+        # (no stale-cache target for this save point) the freshly constructed target after the load
         f = restored["state_dict"]
         payU = Payloads(100000)
         tU = tree_tokens(f.top, payU)
@@ -1484,6 +1536,7 @@ def _run_driver(ctx, driver):
             if mism <= 6:
                 ctx.broke("correspondence", f"model-mismatch:{kind}:{fname}", f"history {list(ops)}: {problem}")
     ctx.count("model_mismatches", mism)
+    ctx.count("driver_RT_targets_with_live_caches", sum(1 for d in driver if d[0] == "RT" and d[4].get("live_before")))
 
 
 # ====================================================================================================
@@ -1538,7 +1591,12 @@ def _plan(ctx):
     seed = rng.randrange(1000)
     canon = canonical_history(ctx.tier)
     plan = []
-    for fname, (fn, quick, meta) in FAMILIES.items():
+    # families that exercise the cache holders / copy hooks first (their findings head the report)
+    first = ["exact/kiss_gp", "svgp/whitened_cholesky", "exact/sgpr", "exact/grid_kernel", "exact/poly2",
+             "multitask/hadamard_index", "svgp/lik_softmax"]
+    order = [f for f in first if f in FAMILIES] + [f for f in FAMILIES if f not in first]
+    for fname in order:
+        fn, quick, meta = FAMILIES[fname]
         if meta.get("lazy"):
             continue
         if ctx.quick:
@@ -1550,9 +1608,9 @@ def _plan(ctx):
             pts = list(range(len(canon) + 1))
         for k in pts:
             plan.append((fname, seed, canon[:k], MECHS))
-        nrand = (1 if quick else 0) if ctx.quick else 3
+        nrand = (1 if quick else 0) if ctx.quick else 5
         for j in range(nrand):
-            h = random_history(rng, rng.randrange(2, 7))
+            h = random_history(rng, rng.randrange(2, 7 if ctx.quick else 9))
             plan.append((fname, seed + 1 + j, h, MECHS))
     return plan
 
@@ -1590,6 +1648,7 @@ def correspondence(ctx, want_driver=True):
             ok_fam.add(fname)
         fam_time[fname] = fam_time.get(fname, 0.0) + (T() - t1)
     _lazy_rff(ctx)
+    _legacy_keys(ctx)
     for fname in sorted(built - ok_fam):
         if not any(n == f"family:{fname}" for _, n, _ in ctx.broken):
             ctx.broke("correspondence", f"family:{fname}", "every save point of this family was discarded as ill-conditioned")
@@ -1660,6 +1719,53 @@ def _lazy_rff(ctx):
         ctx.broke("correspondence", f"family:{fname}", f"{type(e).__name__}: {e}\n" + traceback.format_exc()[-1000:])
 
 
+def _legacy_keys(ctx):
+    """The two legacy-key pre-hooks: a state dict written by an older version must still load."""
+    torch, gpytorch = _import()
+    try:
+        # ConstantMean: `constant` (shape *batch x 1) was renamed to `raw_constant` (shape *batch)
+        fname, seed = "exact/matern25", 5
+        b, _ = build_original(fname, seed, ["setp", "step", "eval", "predict"])
+        sd = copy.deepcopy(b.top.state_dict())
+        old = type(sd)()
+        for k, v in sd.items():
+            if k.endswith("mean_module.raw_constant"):
+                old[k[: -len("raw_constant")] + "constant"] = v.unsqueeze(-1)
+            else:
+                old[k] = v
+        f = build_fresh(fname, seed)
+        with warnings.catch_warnings():
+            warnings.simplefilter("ignore")
+            f.top.load_state_dict(old)
+        f.top.train(b.top.training)
+        obs_o, _ = observe(b)
+        obs_r, err = observe(f)
+        ctx.case("legacy/constant_mean|state_dict", sample={"family": fname, "note": "legacy key `constant`"})
+        for k, a in obs_o.items():
+            ok, e_, _ = _close(a, obs_r.get(k, a * float("nan")))
+            if not ok:
+                ctx.fail("legacy-key:ConstantMean", f"state dict with the legacy key `mean_module.constant`: {k} differs from "
+                         f"the original by {e_:.3e}", {"family": fname, "seed": seed, "mechanism": "legacy-constant"})
+                break
+        # VariationalStrategy: a state dict without `updated_strategy` loads (flag becomes False; the parameters are
+        # re-whitened at the next call by design, so no prediction equality is claimed)
+        fname = "svgp/whitened_cholesky"
+        b, _ = build_original(fname, seed, ["setp", "step"])
+        sd = copy.deepcopy(b.top.state_dict())
+        old = type(sd)((k, v) for k, v in sd.items() if not k.endswith("updated_strategy"))
+        f = build_fresh(fname, seed)
+        with warnings.catch_warnings():
+            warnings.simplefilter("ignore")
+            f.top.load_state_dict(old)
+        ctx.case("legacy/updated_strategy|state_dict", sample={"family": fname, "note": "legacy: no updated_strategy key"})
+        if bool(f.model.variational_strategy.updated_strategy.item()):
+            ctx.fail("legacy-key:VariationalStrategy", "state dict without `updated_strategy`: the flag is not reset to False",
+                     {"family": fname, "seed": seed, "mechanism": "legacy-updated-strategy"})
+    except Exception as e:
+        ctx.fail("legacy-key:load-error", f"loading a legacy-format state dict raised {type(e).__name__}: {str(e)[:300]}",
+                 {"mechanism": "legacy"})
+
+
 def search(ctx, broken):
     """The proof or the tie broke.  The spec oracle of `correspondence` involves no model, so whatever it reported is
     the failing input; if the correspondence did not run to the end, re-run it without the driver."""
@@ -1678,6 +1784,10 @@ def replay(ctx, payload):
     if mech == "state_dict-lazy":
         n = len(ctx.failures)
         _lazy_rff(ctx)
+        return len(ctx.failures) == n
+    if mech and mech.startswith("legacy"):
+        n = len(ctx.failures)
+        _legacy_keys(ctx)
         return len(ctx.failures) == n
     mechs = MECHS if mech not in MECHS else (mech,)
     fails = check_savepoint(ctx, case["family"], case["seed"], case["ops"], mechs, driver=None, report=False)
